@@ -154,3 +154,22 @@ def table_of(ctx, body, term):
             owner = "Session" if body.name.startswith("session::session::Session") else body.name.split("::")[-3] if "::" in body.name else "?"
             return "%s.%s" % (owner, v[5:])
     return None
+
+
+PURE_SUFFIXES = ("Deref>::deref", "DerefMut>::deref_mut", "::keys", "::values", "::iter", "::len", "::is_empty", "Iterator::collect", "Iterator>::collect",
+                 "mem::drop", "Argument::new_debug", "Argument::new_display", "Argument::new_lower_hex", "Arguments::new", "Arguments::new_const", "fmt::format", "hint::must_use",
+                 "Clone>::clone", "::as_ref", "::as_str", "::to_string", "ToString>::to_string", "::id", "Into>::into", "From>::from", "IntoIterator>::into_iter",
+                 "::from_utf8_lossy", "::is_closed", "::as_bytes", "::to_owned", "::to_vec", "::elapsed", "::as_secs_f64", "::as_secs", "::as_millis", "Display>::fmt", "Debug>::fmt")
+
+
+def effectful_calls(body, region):
+    """non-tracing calls inside `region` that are not on the pure/log-argument whitelist"""
+    out = []
+    for c in body.calls():
+        if c.bb not in region:
+            continue
+        n = c.norm or ""
+        if n.endswith(PURE_SUFFIXES):
+            continue
+        out.append(c)
+    return out
